@@ -38,8 +38,25 @@ thread_local int          tl_sid  = -1;
 thread_local uint64_t     tl_rng  = 0;
 thread_local bool         tl_init = false;
 
-void on_event(int kind, const void*, uint64_t a, uint64_t)
+std::atomic<int> g_unlocked_events{0};
+std::atomic<int> g_unlocked_kind{0};
+
+void on_event(int kind, const void* object, uint64_t a, uint64_t)
 {
+    // the model's atomicity reduction: these events are emitted inside a block that holds the queue mutex.
+    // try_lock on a mutex owned by the calling thread reports failure with the pthread mutex used here; if it
+    // succeeds the mutex was NOT held: the shared state is touched outside the lock the proof relies on.
+    if (kind == verif::ev_push_one || kind == verif::ev_push_all || kind == verif::ev_worker_pop ||
+        kind == verif::ev_worker_exit || kind == verif::ev_stop)
+    {
+        const auto* queue = static_cast<const nano::parallel::queue_t*>(object);
+        if (queue != nullptr && queue->m_mutex.try_lock())
+        {
+            queue->m_mutex.unlock();
+            g_unlocked_events.fetch_add(1);
+            g_unlocked_kind.store(kind);
+        }
+    }
     const auto i = g_nevents.fetch_add(1, std::memory_order_acq_rel);
     if (i >= max_events) return;
     int actor = tl_sid;
@@ -395,6 +412,10 @@ int main(int argc, char** argv)
                     const auto n = sc->recs[static_cast<size_t>(c.id0 + i)].count.load();
                     if (n > 1) sc->fail("task " + std::to_string(c.id0 + i) + " executed " + std::to_string(n) + " times");
                 }
+        if (g_unlocked_events.exchange(0) > 0)
+            sc->fail(std::string("event ") + kind_name(g_unlocked_kind.load()) +
+                     " was emitted without holding the queue mutex: m_tasks/m_stop are accessed outside the lock (the "
+                     "atomicity the protocol proof relies on; lost wake-ups become possible)");
         print_scenario(k, *sc, false);
         total_fail += sc->fails.load();
         total_events += static_cast<long>(g_nevents.load());
